@@ -75,7 +75,7 @@ func init() {
 				n = 60000
 			}
 			out = append(out, seeded("C12", seed, n, func(i int, sd uint64) *k.Spec {
-				s := &k.Spec{Params: cp(cells[int(k.H(sd, "cell", 0)%uint64(len(cells)))], "jitter", "1")}
+				s := &k.Spec{Seed: sd, Params: cp(cells[int(k.H(sd, "cell", 0)%uint64(len(cells)))], "jitter", "1")}
 				swarm(s, "server.go:Serve,client.go:Client.Start,grpc_broker.go:GRPCBroker.Accept,grpc_server.go")
 				if s.DelayClass == "big" {
 					s.DelayClass = "mid"
